@@ -130,6 +130,26 @@ theorem C08_exact_strong (s : State) (h : C03_Strong s) (a : FsPath) (rootE : En
   obtain ⟨_, hwf, hr, _⟩ := C08S_entriesOf_correct s h a rootE snap hent
   exact C08_exact snap o rootE hwf hr hdom
 
+/-- the side condition of the `files().contents_first()` theorems is discharged on every state
+    satisfying the strengthened invariant: its fourth conjunct says no entry carries both kind
+    flags, and every pair of a snapshot is a pair of the state (`C08S_snapshot_sub`) -/
+theorem flagsExcl_of_strong (s : State) (h : C03_Strong s) (a : FsPath) (rootE : Entry) (snap : Snap)
+    (hent : entriesOf s a = .ok (rootE, snap)) : Lemmas.WalkCF.FlagsExcl snap := by
+  intro kv hkv hd
+  have hm := C08S_snapshot_sub s h a rootE snap hent kv hkv
+  have hf := h.2.2.2 kv hm
+  cases hfile : kv.2.file with
+  | false => rfl
+  | true => exact absurd ⟨hfile, hd⟩ hf
+
+/-- the same on the wider domain `ExactDom2` (after the repair of `process`: `contents_first` with
+    a kind filter, `min_depth = 0`), without any hypothesis on the snapshot -/
+theorem C08_exact2_strong (s : State) (h : C03_Strong s) (a : FsPath) (rootE : Entry) (snap : Snap) (o : Opts)
+    (hent : entriesOf s a = .ok (rootE, snap)) (hdom : Lemmas.WalkCF.ExactDom2 o) :
+    collectEntries snap o rootE = .ok (entriesSpec snap o rootE) := by
+  obtain ⟨_, hwf, hr, _⟩ := C08S_entriesOf_correct s h a rootE snap hent
+  exact C08_exact2 snap o rootE hwf hr hdom (fun _ _ => flagsExcl_of_strong s h a rootE snap hent)
+
 /-- `C08_listing_helpers` without `entriesOf` / `SnapWf` / `SnapOf` hypotheses: `paths`, `dirs`,
     `files` (`maxDepth = some 1`) and `all_*` (`none`) of a real directory `a` succeed and return, in
     lexicographic order and without repetition, exactly the keys strictly below `a` within the depth
@@ -189,6 +209,17 @@ theorem C08F_entries_op_strong (env : Env) (p : Str) (r : TravReq) (s : State) (
       (.ok (.trav ((entriesSpecF snap r.opts rootE).1.map (·.path)) (entriesSpecF snap r.opts rootE).2), s) := by
   obtain ⟨_, hwf, hr, _⟩ := C08S_entriesOf_correct s h k rootE snap hent
   exact C08F_entries_op_partial env p r s k rootE snap habs hent hwf hr hdom hfuel
+
+/-- the same on the wider domain `ExactDomF2` (`contents_first` with a kind filter, repaired) -/
+theorem C08F_entries_op2_strong (env : Env) (p : Str) (r : TravReq) (s : State) (k : FsPath) (rootE : Entry)
+    (snap : Snap) (h : C03_Strong s) (habs : absM env p s = (.ok k, s))
+    (hent : entriesOf s k = .ok (rootE, snap)) (hdom : Lemmas.WalkCF.ExactDomF2 r.opts)
+    (hfuel : fuelNeed snap r.opts rootE ≤ travFuel snap) :
+    step env s (.entries p r) =
+      (.ok (.trav ((entriesSpecF snap r.opts rootE).1.map (·.path)) (entriesSpecF snap r.opts rootE).2), s) := by
+  obtain ⟨_, hwf, hr, _⟩ := C08S_entriesOf_correct s h k rootE snap hent
+  exact C08F_entries_op2_partial env p r s k rootE snap habs hent hwf hr hdom
+    (fun _ _ => flagsExcl_of_strong s h k rootE snap hent) hfuel
 
 /-- the same from the existence of the key: `entriesOf` succeeds, and the operation returns the walk -/
 theorem C08F_entries_op_strong' (env : Env) (p : Str) (r : TravReq) (s : State) (k : FsPath) (rootE : Entry)
@@ -288,6 +319,27 @@ theorem C08F_entries_op_reachable (env₀ : Env) (ops : List Op)
       (.ok (.trav ((entriesSpecF snap r.opts rootE).1.map (·.path)) (entriesSpecF snap r.opts rootE).2),
         run env₀ Memfs.init ops) :=
   C08F_entries_op_strong env p r _ k rootE snap (C03_strong_reachable env₀ ops hh) habs hent hdom hfuel
+
+/-- `C08_exact2_strong` on reachable states: `contents_first` with `dirs()` / `files()`
+    (`min_depth = 0`) yields exactly the recursive walk, no snapshot hypothesis left -/
+theorem C08_exact2_reachable (env₀ : Env) (ops : List Op)
+    (hh : ∀ pre op post, ops = pre ++ op :: post → (step env₀ (run env₀ Memfs.init pre) op).1 ≠ .hang)
+    (a : FsPath) (rootE : Entry) (snap : Snap) (o : Opts)
+    (hent : entriesOf (run env₀ Memfs.init ops) a = .ok (rootE, snap)) (hdom : Lemmas.WalkCF.ExactDom2 o) :
+    collectEntries snap o rootE = .ok (entriesSpec snap o rootE) :=
+  C08_exact2_strong _ (C03_strong_reachable env₀ ops hh) a rootE snap o hent hdom
+
+/-- `C08F_entries_op2_strong` on reachable states -/
+theorem C08F_entries_op2_reachable (env₀ : Env) (ops : List Op)
+    (hh : ∀ pre op post, ops = pre ++ op :: post → (step env₀ (run env₀ Memfs.init pre) op).1 ≠ .hang)
+    (env : Env) (p : Str) (r : TravReq) (k : FsPath) (rootE : Entry) (snap : Snap)
+    (habs : absM env p (run env₀ Memfs.init ops) = (.ok k, run env₀ Memfs.init ops))
+    (hent : entriesOf (run env₀ Memfs.init ops) k = .ok (rootE, snap)) (hdom : Lemmas.WalkCF.ExactDomF2 r.opts)
+    (hfuel : fuelNeed snap r.opts rootE ≤ travFuel snap) :
+    step env (run env₀ Memfs.init ops) (.entries p r) =
+      (.ok (.trav ((entriesSpecF snap r.opts rootE).1.map (·.path)) (entriesSpecF snap r.opts rootE).2),
+        run env₀ Memfs.init ops) :=
+  C08F_entries_op2_strong env p r _ k rootE snap (C03_strong_reachable env₀ ops hh) habs hent hdom hfuel
 
 theorem C09_copy_tree_reachable (env₀ : Env) (ops : List Op)
     (hh : ∀ pre op post, ops = pre ++ op :: post → (step env₀ (run env₀ Memfs.init pre) op).1 ≠ .hang)
